@@ -167,6 +167,7 @@ func runC10(r *R) {
 	cfg := r.SchedConfig()
 	r.Nontrivial = len(ops) > 0
 
+	r.Tracef("scenario mode=%d #%d caps=%d net=%d ops=%v", mode, scen, capsVariant, netMode, ops)
 	// dry run: fault-free, calm schedule; measures the transcript
 	dry := c10Exec(r, ops, capsVariant, fNone, 0, 0, simrt.ReplayTape(nil), simrt.Config{MaxSteps: 150000})
 	if r.Res.Infra != "" {
@@ -253,6 +254,32 @@ func c10Judge(r *R, out *c10Out, kind int, phase string) {
 	}
 	wi := 0
 	for _, rec := range out.recs {
+		if rec.Op.Kind == opMove {
+			// MOVE, or its COPY + STORE + EXPUNGE fallback when the server lacks MOVE: skip its wire commands
+			for j := wi; j < len(wire); j++ {
+				if wire[j].Name == "MOVE" || wire[j].Name == "UID MOVE" {
+					wi = j + 1
+					break
+				}
+				if wire[j].Name == "COPY" || wire[j].Name == "UID COPY" {
+					wi = j + 1
+					// exactly one STORE and one EXPUNGE follow (CAPABILITY commands of the client may interleave)
+					for _, want := range []string{"STORE", "EXPUNGE"} {
+						for k := wi; k < len(wire); k++ {
+							if strings.HasSuffix(wire[k].Name, want) {
+								wi = k + 1
+								break
+							}
+							if wire[k].Name != "" && wire[k].Name != "CAPABILITY" {
+								break
+							}
+						}
+					}
+					break
+				}
+			}
+			continue
+		}
 		if rec.Name == "" {
 			continue
 		}
